@@ -90,7 +90,13 @@ def g_sphere(rng, n):
 
 
 def g_geom(rng, n):
-  return _geomray(rng, n, plane=True) + [rng.choice([0, 2, 3, 4, 5, 6, 6, 1, 7, 8], n).astype(np.int32)]
+  a = _geomray(rng, n)
+  t = rng.choice([0, 2, 3, 4, 5, 6, 6, 1, 7, 8], n).astype(np.int32)
+  # unlimited plane sides (size 0) only for planes: a zero semi-axis of an ellipsoid is a degenerate geom whose
+  # float32 discriminant is pure cancellation noise (not a translation question)
+  z = (t == 0) & (rng.random(n) < 0.5)
+  a[2][z, int(rng.integers(0, 2))] = 0.0
+  return a + [t]
 
 
 def g_map(rng, n):
@@ -285,7 +291,12 @@ def kernel_correspondence(res, tr, nscenes, nrays):
   if sig is None:
     return [{"error": "_ray_geom_mesh is not translated"}], []
   rng = np.random.default_rng(vlib.seed() + 3401)
-  defs, lines, meta = [G.COQ_ARRAY_DEFS], [], []
+  # `min_dist >= MJ_MAXVAL` compares the sentinel with itself: an exact tie by construction, which the
+  # +-eps comparison bias of the branch-margin rule (ScalarFlo/Fhi) would turn into "discard every miss".
+  # (and `MJ_MAXVAL < MJ_MAXVAL` into "the last missed geom wins").  The MODEL's output is therefore
+  # normalised (distance negative or left at the sentinel => the no-hit triple (-1,-1,0)) before the
+  # comparison; the implementation's output is compared as is.
+  defs, lines, meta = [G.COQ_ARRAY_DEFS + "Definition nohit (r : float * Z * list float) : list float := let '(d, g, n) := r in if ((d <? 0) || (0x1.0p+33 <? d))%float then [-1; -1; 0; 0; 0]%float else d :: f_ofZ g :: n.\n"], [], []
   for s in range(nscenes):
     prim_only = s % 3 == 2  # these scenes also run the BVH kernel against ray_bvh_kernel
     types = G.PRIMS if prim_only else G.PRIMS + ("mesh", "hfield")
@@ -294,7 +305,7 @@ def kernel_correspondence(res, tr, nscenes, nrays):
     arrs = model_arrays(mm, dd)
     sdefs, names = scene_defs(sig, f"s{s}", arrs)
     defs.append(sdefs)
-    pnt, vec = G.random_rays(rng, 2 * nrays, scales=(1.0, 1.0, 0.5, 3.0))
+    pnt, vec = G.random_rays(rng, 2 * nrays, scales=(1.0, 1.0, 0.5, 3.0), centers=ds[0].geom_xpos)
     pnt, vec = pnt.reshape(2, nrays, 3), vec.reshape(2, nrays, 3)
     gg = [-1] * 6 if rng.random() < 0.4 else rng.integers(0, 2, 6).tolist()
     flg_static = bool(rng.random() < 0.6)
@@ -310,11 +321,11 @@ def kernel_correspondence(res, tr, nscenes, nrays):
       for r in range(nrays):
         cand = cand_term(sig, names, arrs, w, pnt[w, r], vec[w, r], gg, flg_static, bex[r])
         exp = [dist[w, r], gid[w, r]] + nrm[w, r].tolist()
-        lines.append(f"tv3 {vlib.fhex(3e-4)} (fun Sc => let '(d, g, n) := @ray_kernel float Sc {cand} ({m.ngeom})%Z in d :: f_ofZ g :: n) {vlib.flist(exp)}")
+        lines.append(f"tv3 {vlib.fhex(3e-4)} (fun Sc => nohit (@ray_kernel float Sc {cand} ({m.ngeom})%Z)) {vlib.flist(exp)}")
         meta.append(dict(kernel="_ray", xml=xml, world=w, pnt=pnt[w, r].tolist(), vec=vec[w, r].tolist(), geomgroup=gg, flg_static=flg_static, bodyexclude=int(bex[r]), impl=exp))
         if rc is not None and r < nrays // 2:
           exp = [bdist[w, r], bgid[w, r]] + bnrm[w, r].tolist()
-          lines.append(f"tv3 {vlib.fhex(3e-4)} (fun Sc => let '(d, g, n) := @ray_bvh_kernel float Sc {cand} {order} in d :: f_ofZ g :: n) {vlib.flist(exp)}")
+          lines.append(f"tv3 {vlib.fhex(3e-4)} (fun Sc => nohit (@ray_bvh_kernel float Sc {cand} {order})) {vlib.flist(exp)}")
           meta.append(dict(kernel="_ray_bvh", xml=xml, world=w, pnt=pnt[w, r].tolist(), vec=vec[w, r].tolist(), geomgroup=gg, flg_static=flg_static, bodyexclude=int(bex[r]), impl=exp))
   verdicts = tvalid.run_cases("C34k", ["Model.Ray", "Gen.T_ray"], lines, chunk=60, extra_defs="\n".join(defs))
   bad = []
@@ -340,7 +351,7 @@ def oracle_mj(res, nscenes, nrays, scales, types, tag):
   for s in range(nscenes):
     xml = G.scene(rng, types=types)
     m, ds, mm, dd = build(xml, rng)
-    pnt, vec = G.random_rays(rng, 2 * nrays, scales=scales)
+    pnt, vec = G.random_rays(rng, 2 * nrays, scales=scales, centers=ds[0].geom_xpos)
     pnt, vec = pnt.reshape(2, nrays, 3), vec.reshape(2, nrays, 3)
     shared = s % 4 == 3  # (1, nray) origins shared by the worlds: the `worldid % shape[0]` path
     if shared:
@@ -386,7 +397,7 @@ def oracle_bvh(res, nscenes, nrays):
     m, ds, mm, dd = build(xml, rng)
     rc = mjw.create_render_context(m, nworld=2, cam_res=(2, 2), enabled_geom_groups=[0, 1, 2, 3, 4, 5])
     mjw.refit_bvh(mm, dd, rc)
-    pnt, vec = G.random_rays(rng, 2 * nrays)
+    pnt, vec = G.random_rays(rng, 2 * nrays, centers=ds[0].geom_xpos)
     pnt, vec = pnt.reshape(2, nrays, 3), vec.reshape(2, nrays, 3)
     gg = [-1] * 6 if rng.random() < 0.4 else rng.integers(0, 2, 6).tolist()
     flg_static = bool(rng.random() < 0.6)
@@ -539,7 +550,8 @@ def classify_mj(f):
 def classify_bvh(f):
   if "mesh" in f["geom_types"]:
     b, a = f["bvh"], f["brute"]
-    if b[1] != a[1] and a[1] >= 0 and a[0] < 0.35:  # brute hits a mesh right next to the origin, BVH does not: origin inside
+    # the brute-force hit is an exit face (normal along the ray) that the BVH path does not report: origin inside the mesh
+    if b[1] != a[1] and a[1] >= 0 and float(np.dot(f["vec"], a[2:5])) > 0:
       return "C34:bvh:mesh-backface-culled"
   return "C34:oracle:bvh-vs-brute:" + "+".join(f["geom_types"] or ["none"])
 
